@@ -15,8 +15,10 @@ FAMS = {
     "GG": ("GeneralizedGammaDistribution", ["m", "c", "lambda_"]),
     "N": ("NormalDistribution", ["mu", "sigma"]),
     "VM": ("VonMisesDistribution", ["kappa", "mu"]),
+    # a user-defined family derived from virocon.distributions.ScipyDistribution (scipy's weibull_min: c, loc, scale)
+    "SW": ("@ScipyWeibullMin", ["c", "loc", "scale"]),
 }
-NONNEG = ["W", "LN", "NF", "EW", "GG"]
+NONNEG = ["W", "LN", "NF", "EW", "GG", "SW"]
 
 
 # ----------------------------------------------------------------------------- dependence functions
@@ -72,7 +74,8 @@ def dep_callable(name, co):
 PCLASS = {("W", "alpha"): "scale", ("W", "beta"): "shape", ("LN", "mu"): "log", ("LN", "sigma"): "shape",
           ("NF", "mu_norm"): "scale", ("NF", "sigma_norm"): "scale", ("EW", "alpha"): "scale", ("EW", "beta"): "shape",
           ("EW", "delta"): "shape", ("GG", "m"): "shape", ("GG", "c"): "shape", ("GG", "lambda_"): "scale",
-          ("N", "mu"): "loc", ("N", "sigma"): "shape", ("VM", "kappa"): "shape", ("VM", "mu"): "angle"}
+          ("N", "mu"): "loc", ("N", "sigma"): "shape", ("VM", "kappa"): "shape", ("VM", "mu"): "angle",
+          ("SW", "c"): "shape", ("SW", "scale"): "scale", ("SW", "loc"): "loc"}
 
 
 def rand_dep(rng, pclass="scale", allow_const=False):
@@ -113,6 +116,8 @@ def rand_uncond(rng, fam):
         return {"mu": u(-3, 8), "sigma": lg(0.2, 3)}
     if fam == "VM":
         return {"kappa": lg(0.3, 8), "mu": u(-2.5, 2.5)}
+    if fam == "SW":
+        return {"c": lg(0.8, 3.5), "loc": rng.choice([0.0, 0.0, u(0, 1.0)]), "scale": lg(0.5, 4)}
     raise KeyError(fam)
 
 
@@ -127,7 +132,7 @@ def rand_dim(rng, fam, cond, allow_const=False):
     if not dep_names:
         dep_names = [rng.choice(names)]
     for n in names:
-        if n in dep_names and not (fam == "W" and n == "gamma"):
+        if n in dep_names and not (fam == "W" and n == "gamma") and not (fam == "SW" and n == "loc"):
             params[n] = rand_dep(rng, PCLASS[(fam, n)], allow_const=allow_const)
         else:
             params[n] = ["fix", base[n]]
@@ -157,12 +162,63 @@ def structure(spec):
 
 
 # ----------------------------------------------------------------------------- real objects
+_CLS = {}
+
+
+def fam_class(fam):
+    import virocon.distributions as vd
+    name = FAMS[fam][0]
+    if not name.startswith("@"):
+        return getattr(vd, name)
+    if fam not in _CLS:
+        _CLS[fam] = type("ScipyWeibullMin", (vd.ScipyDistribution,), {"scipy_dist_name": "weibull_min"})
+    return _CLS[fam]
+
+
+PREDEFINED = {"DNVGL_Hs_Tz": "ec-benchmark_dataset_A_1year.txt", "DNVGL_Hs_U": "ec-benchmark_dataset_D_1year.txt",
+              "OMAE2020_Hs_Tz": "ec-benchmark_dataset_A_1year.txt", "OMAE2020_V_Hs": "ec-benchmark_dataset_D_1year.txt",
+              "Windmeier_EW_Hs_S": "ec-benchmark_dataset_A_1year.txt", "Nonzero_EW_Hs_S": "ec-benchmark_dataset_B_1year.txt"}
+_FITTED = {}
+
+
+def predefined_spec(name):
+    """a spec standing for virocon.predefined.get_<name>() fitted to a benchmark data set (no independent formulas:
+    the oracles of such a spec use the model's own per-dimension distributions)"""
+    return {"predefined": name, "dims": [{"fam": "P", "cond": None, "params": {}}, {"fam": "P", "cond": 0, "params": {}}]}
+
+
+def predefined_parts(name):
+    """(fresh fitted GlobalHierarchicalModel, transformations dict or None) of a predefined model"""
+    import copy
+    import os
+    import virocon
+    import virocon.predefined as pre
+    import vlib
+    if name not in _FITTED:
+        out = getattr(pre, "get_" + name)()
+        dd, fd = out[0], out[1]
+        trans = out[3] if len(out) > 3 else None
+        data = virocon.read_ec_benchmark_dataset(os.path.join(vlib.REPO, "datasets", PREDEFINED[name]))
+        if name in ("DNVGL_Hs_U",):
+            data = data[[data.columns[1], data.columns[0]]]
+        arr = np.asarray(data, dtype=float)
+        if trans is not None:
+            arr = trans["transform"](arr)
+        model = virocon.GlobalHierarchicalModel(dd)
+        model.fit(arr, fit_descriptions=fd)
+        _FITTED[name] = (model, trans)
+    model, trans = _FITTED[name]
+    return copy.deepcopy(model), trans
+
+
 def build_model(spec):
     import virocon
     import virocon.distributions as vd
+    if "predefined" in spec:
+        return predefined_parts(spec["predefined"])[0]
     descs = []
     for d in spec["dims"]:
-        cls = getattr(vd, FAMS[d["fam"]][0])
+        cls = fam_class(d["fam"])
         if d["cond"] is None:
             descs.append({"distribution": cls(**{n: v[1] for n, v in d["params"].items()})})
         else:
@@ -174,8 +230,7 @@ def build_model(spec):
 
 def build_dist(dimspec):
     """the (unconditional) virocon distribution of one dimension spec"""
-    import virocon.distributions as vd
-    cls = getattr(vd, FAMS[dimspec["fam"]][0])
+    cls = fam_class(dimspec["fam"])
     return cls(**{n: v[1] for n, v in dimspec["params"].items()})
 
 
@@ -209,6 +264,8 @@ def scipy_args(fam, pv):
         return sts_real.norm, (pv["mu"], pv["sigma"])
     if fam == "VM":
         return sts_real.vonmises, (pv["kappa"], pv["mu"])
+    if fam == "SW":
+        return sts_real.weibull_min, (pv["c"], pv["loc"], pv["scale"])
     raise KeyError(fam)
 
 
